@@ -141,10 +141,32 @@ func c14Build(h []c14Op) (*pass_table.Auth, c14Ref, error) {
 			a.SetUserPassword(op.User, op.Pass)
 		case "delete":
 			a.DeleteUser(op.User)
+		case "auth":
+			// a login attempt in the middle of the history: no effect on the reference,
+			// whatever it leaves behind in the module is part of the state under test
+			a.AuthPlain(op.User, op.Pass)
 		}
 		ref.apply(op)
 	}
 	return a, ref, nil
+}
+
+// c14PreLogins: login attempts worth making before an operation in a state.
+func c14PreLogins(ref c14Ref, users []string) []c14Op {
+	var out []c14Op
+	for _, u := range users {
+		k, ok := c14Key(u)
+		if !ok {
+			continue
+		}
+		if p, exists := ref[k]; exists {
+			out = append(out, c14Op{"auth", u, p})
+			if u == k {
+				out = append(out, c14Op{"auth", u, p + "-wrong"})
+			}
+		}
+	}
+	return out
 }
 
 type c14MapTable struct{ m map[string]string }
@@ -320,6 +342,28 @@ func TestVerifC14(t *testing.T) {
 			}
 			idx++
 			if r.Mine(idx) {
+				// the same transition taken after a login attempt (successful under every
+				// spelling of every account of the state, and one failing attempt per account)
+				refH := c14Ref{}
+				for _, o := range h {
+					refH.apply(o)
+				}
+				for _, pre := range c14PreLogins(refH, users) {
+					hv := append(append(append([]c14Op{}, h...), pre), op)
+					av, refv, err := c14Build(hv)
+					if err != nil {
+						r.HarnessError(err.Error())
+						return
+					}
+					r.Eval()
+					transitions++
+					r.Count("transitions_after_login", 1)
+					csv := c14Case{hv}
+					r.Nontrivial(vx.JSON(csv))
+					if !c14Observe(r, av, refv, csv, users, passwords, false) {
+						break
+					}
+				}
 				a, ref2, err := c14Build(hist)
 				if err != nil {
 					r.HarnessError(err.Error())
